@@ -19,7 +19,7 @@ def allOps : List (String × Handler) :=
 
 /-- ops that read or extend the driver state (registered documents) -/
 def allStateOps : List (String × SHandler) :=
-  treeOps ++ ruleOps ++ ruleOracleOps
+  treeOps ++ ruleOps ++ ruleOracleOps ++ scanOps
 
 def derr (e : String) : String := (Json.mkObj [("driver_error", Json.str e)]).compress
 
